@@ -21,11 +21,10 @@ theorem C10_flat_index_row {α : Type} (d : α) (n : Nat) (rows : List (List α)
 the unbatched result on `rows[t]` — rows never influence each other. -/
 theorem C10_batched_expected_eq_rows {K : Type} [Add K] [Sub K] [Mul K] [Div K] [Neg K] [OfNat K 0] [OfNat K 1]
     [OfScientific K] [LT K] [LE K] [DecidableLT K] [DecidableLE K] [BEq K]
-    (P : Prim K) (s : Spec K) (st : Settings K) (m : Model K) (hbuild : buildModel P s st = .ok m)
-    (hhisto : histoBlocksOK s (mkConfig s) = true) (hreads : readsBelow m m.npars = true)
+    (P : Prim K) (s : Spec K) (st : Settings K) (m : Model K) (hbuild : buildModel P s st = .ok m) (hreads : readsBelow m m.npars = true)
     (rows : List (List K)) (hrows : ∀ r ∈ rows, r.length = m.npars) (t : Nat) (ht : t < rows.length) :
     expectedActual P m (parOfRow m.npars rows t) = expectedActual P m (parOf (rows.getD t [])) := by
-  have hs := shape_of_built P s st m (buildModel_built P s st m hbuild) hhisto
+  have hs := shape_of_built P s st m (buildModel_built P s st m hbuild)
   rw [expectedActual_pw P m hs, expectedActual_pw P m hs]
   apply pw_congr
   intro x _ b _
@@ -34,13 +33,12 @@ theorem C10_batched_expected_eq_rows {K : Type} [Add K] [Sub K] [Mul K] [Div K] 
 /-- changing any other row changes nothing in row `t` -/
 theorem C10_rows_independent {K : Type} [Add K] [Sub K] [Mul K] [Div K] [Neg K] [OfNat K 0] [OfNat K 1]
     [OfScientific K] [LT K] [LE K] [DecidableLT K] [DecidableLE K] [BEq K]
-    (P : Prim K) (s : Spec K) (st : Settings K) (m : Model K) (hbuild : buildModel P s st = .ok m)
-    (hhisto : histoBlocksOK s (mkConfig s) = true) (hreads : readsBelow m m.npars = true)
+    (P : Prim K) (s : Spec K) (st : Settings K) (m : Model K) (hbuild : buildModel P s st = .ok m) (hreads : readsBelow m m.npars = true)
     (rows rows' : List (List K)) (hrows : ∀ r ∈ rows, r.length = m.npars) (hrows' : ∀ r ∈ rows', r.length = m.npars)
     (t : Nat) (ht : t < rows.length) (ht' : t < rows'.length) (hsame : rows.getD t [] = rows'.getD t []) :
     expectedActual P m (parOfRow m.npars rows t) = expectedActual P m (parOfRow m.npars rows' t) := by
-  rw [C10_batched_expected_eq_rows P s st m hbuild hhisto hreads rows hrows t ht,
-      C10_batched_expected_eq_rows P s st m hbuild hhisto hreads rows' hrows' t ht', hsame]
+  rw [C10_batched_expected_eq_rows P s st m hbuild hreads rows hrows t ht,
+      C10_batched_expected_eq_rows P s st m hbuild hreads rows' hrows' t ht', hsame]
 
 /-- the batch dimension is the leading one: the batched result is a list with one entry per row -/
 theorem C10_batch_is_leading_dim {K : Type} [Add K] [Sub K] [Mul K] [Div K] [Neg K] [OfNat K 0] [OfNat K 1]
